@@ -58,8 +58,8 @@ Definition ex_comp : cglyph :=
      cg_instr := [176; 1; 2] |}.
 Example c09_builder_nonvacuous :
   exists glyf loca, build [GEmpty; GSimple ex_glyph; GComposite ex_comp; GEmpty] = Some (glyf, loca, false)
-  /\ loca = [0; 0; 48; 88; 88]
-  /\ read_glyph (firstn 40 (skipn 48 glyf)) =
+  /\ loca = [0; 0; 38; 78; 78]
+  /\ read_glyph (firstn 40 (skipn 38 glyf)) =
        Some (RComposite [-5; -6; 7; 8] (exp_comps (cg_comps ex_comp) HAVE_INSTR) (Some [176; 1; 2])).
 Proof. do 2 eexists. split; [vm_compute; reflexivity|]. split; vm_compute; reflexivity. Qed.
 Example c09_comp_ok_nonvacuous : Forall comp_ok (cg_comps ex_comp).
